@@ -4,7 +4,7 @@ ID = "C07"; DRIVER = "c07"; MODEL = "c07"
 COQ_PROPS = ["Properties_C07.v"]; COQ_EXTRACT = "Extract_C07.v"
 LEVEL = "proof"
 RULE = ("cases = pairs (A,B) of tree automata over a ranked alphabet {a/0,b/0,g/1,f/2}(+h/3) loaded into both BDD encodings through Timbuk text: corpus "
-        "(incl. the D9 pair); complete slice (all A with <=2 states,<=2 rules x all B with 1 state,<=2 rules; sampled in the quick tier); targeted (child "
+        "(incl. the D9 pair); complete slice (all A with <=2 states,<=2 rules x all B with 1 state,<=2 rules; sampled in the quick tier); targeted (languages differing only in a leaf two or more levels down (several refinement rounds), child "
         "state reached with two incomparable macro-states under a binary rule, quotient pairs, near-miss pairs, missing leaf symbols, useless states); random "
         "pairs up to 4+4 states; every case runs 4 top-down + 2 bottom-up selections; a subset additionally runs all 128 flag words on both encodings. "
         "Non-trivial = both languages non-empty; distinct by the pair")
@@ -44,8 +44,28 @@ def incomparable_family(rng):
     if rng.random() < 0.5:
         a, _ = gen.permute_states(rng, a); b, _ = gen.permute_states(rng, b)
     return a, b
+def deep_leaf_miss(rng):
+    """A has deep derivations (unary-rich alphabet); B := A (renamed) with one LEAF rule removed or given another leaf symbol: the languages
+    differ only two or more levels below the final states, so non-similarity / non-inclusion has to be propagated through several rounds"""
+    a = gen.rand_ta(rng, rng.randint(3, 5), rng.randint(4, 9), sigma=gen.SIGMA_U, pfinal=0.25, leafbias=0.25)
+    if not any(len(r[2]) == 0 for r in a.rules): a.rules.append((0, sorted(a.states())[0], ()))
+    if not a.finals: a.finals = [max(a.states())]
+    b, _ = gen.permute_states(rng, a)
+    leaves = [i for i, r in enumerate(b.rules) if len(r[2]) == 0]
+    i = rng.choice(leaves)
+    if rng.random() < 0.5: b.rules.pop(i)
+    else: b.rules[i] = (1 - b.rules[i][0] if b.rules[i][0] in (0, 1) else 0, b.rules[i][1], ())
+    return (a, b) if rng.random() < 0.8 else (b, a)
 def targeted(rng, n):
     out = []
+    for _ in range(3 * n): out.append(deep_leaf_miss(rng))
+    for d in range(2, 5):      # plain chains: h(g(a)) vs h(g(b)) and deeper
+        for _ in range(max(1, n // 30)):
+            syms = [rng.choice([2, 5, 6]) for _ in range(d)]
+            a = gen.TA([d], [(0, 0, ())] + [(syms[i], i + 1, (i,)) for i in range(d)])
+            b = gen.TA([d], [(1, 0, ())] + [(syms[i], i + 1, (i,)) for i in range(d)])
+            if rng.random() < 0.5: b.rules.append((0, 0, ()))
+            out.append((a, b))
     for _ in range(n): out.append(incomparable_family(rng))
     for _ in range(n): out.append(gen.quotient_pair(rng, 4, 8))
     for _ in range(n): out.append(gen.near_miss_pair(rng, 4, 8))
